@@ -24,6 +24,7 @@ long xv_ld_calls; const char *xv_ld_name; char **xv_ld_out; long xv_ld_ret; char
 size_t xv_l1, xv_l2, xv_l3;             /* string lengths */
 char *xv_g_elem;                        /* element xv_ce of a list on entry */
 const char *xv_g_p1;
+const char *xv_g_str;                   /* see env/cert_env.h XC_REBASE */
 
 /* ---- certificate model */
 _Bool xv_subj_null; long xv_subj_calls;
@@ -47,7 +48,7 @@ static inline void xc_ghost_havoc(void)
     xv_dup_calls = nondet_long(); xv_dup_ret = nondet_voidp(); xv_dup_len = nondet_size_t(); xv_dup_byte = nondet_char();
     xv_scn_len = nondet_size_t(); xv_nd_str = nondet_bool(); xv_trust_shape = nondet_bool();
     xv_ld_calls = nondet_long(); xv_ld_name = nondet_voidp(); xv_ld_out = nondet_voidp(); xv_ld_ret = nondet_long(); xv_ld_data = nondet_voidp();
-    xv_l1 = nondet_size_t(); xv_l2 = nondet_size_t(); xv_l3 = nondet_size_t(); xv_g_elem = nondet_voidp(); xv_g_p1 = nondet_voidp();
+    xv_l1 = nondet_size_t(); xv_l2 = nondet_size_t(); xv_l3 = nondet_size_t(); xv_g_elem = nondet_voidp(); xv_g_p1 = nondet_voidp(); xv_g_str = NULL;
     xv_subj_null = nondet_bool(); xv_subj_calls = nondet_long();
     xv_nm_calls = nondet_long(); xv_nm_fills = nondet_long(); xv_nm_name = nondet_voidp(); xv_nm_fill_name = nondet_voidp(); xv_nm_buf = nondet_voidp(); xv_nm_fill_len = nondet_int();
     xv_cn_present = nondet_bool(); xv_cn_len = nondet_int(); xv_cn_byte = nondet_uchar();
